@@ -1032,6 +1032,7 @@ def c16(tier):
         r = core.cached_tlc(name, "MCTeardown", cfg, workers=8, timeout=2400)
         v.tlc(name, r)
     ring_close_replay(v, {"C15"})
+    ring_edge(v, {"C15"})     # incl. Close against a waiter that is between its test of the closed flag and its Wait
     faults_run(v, "C16", [("FALSE", "FALSE", "FALSE", 3 if not thorough else 4), ("TRUE", "FALSE", "FALSE", 3 if not thorough else 4),
                           ("FALSE", "TRUE", "FALSE", 4 if not thorough else 5),
                           ("FALSE", "FALSE", "FALSE", 2 if not thorough else 3, "small"), ("FALSE", "FALSE", "FALSE", 2 if not thorough else 3, "big"), ("FALSE", "FALSE", "FALSE", 2 if not thorough else 3, "mid"),
